@@ -34,6 +34,7 @@ type report struct {
 	Refused    []string `json:"map_range_sites_refused"`
 	LockSites  []string `json:"lock_types_replaced"`
 	IOSites    []string `json:"file_system_calls_wrapped"`
+	Points     int      `json:"preemption_points_inserted"`
 	RewroteSrc []string `json:"files_rewritten"`
 }
 
@@ -457,6 +458,33 @@ func rewriteFile(p *packages.Package, f *ast.File, name, dir string, rep *report
 		}
 		rep.MapSites = append(rep.MapSites, site)
 		changed, usesRT = true, true
+		return true
+	})
+
+	// 3. preemption points: first statement of every function body and of every loop body
+	point := func() ast.Stmt {
+		return &ast.ExprStmt{X: &ast.CallExpr{Fun: &ast.SelectorExpr{X: ast.NewIdent("verifrt"), Sel: ast.NewIdent("Point")}}}
+	}
+	ast.Inspect(f, func(n ast.Node) bool {
+		var body *ast.BlockStmt
+		switch x := n.(type) {
+		case *ast.FuncDecl:
+			if x.Name != nil && x.Name.Name == "init" {
+				return true
+			}
+			body = x.Body
+		case *ast.FuncLit:
+			body = x.Body
+		case *ast.ForStmt:
+			body = x.Body
+		case *ast.RangeStmt:
+			body = x.Body
+		}
+		if body != nil {
+			body.List = append([]ast.Stmt{point()}, body.List...)
+			rep.Points++
+			changed, usesRT = true, true
+		}
 		return true
 	})
 
